@@ -408,11 +408,17 @@ fn exec_c<C: Suite>(scen: &Scenario) -> Exec {
         renamed.insert(outsider, z);
         let mut surplus = a.shares.clone();
         surplus.insert(outsider, z);
+        // The statement promises: whatever aggregation returns, a returned signature verifies. (Refusing an inconsistent
+        // identifier set outright is how the library achieves that today; an implementation that ignores a surplus entry
+        // and still returns the VALID signature would not break the property, so only an invalid result is flagged.)
         for (name, m) in [("missing share", &missing), ("share under an identifier outside the package", &renamed), ("surplus share", &surplus)] {
             for (mname, r) in aggregate_all::<C>(&a.package, m, &a.pk) {
                 rep.evaluations += 1;
-                if r.is_ok() {
-                    return Exec::Violation(Violation::new("C04", "C04.identifier_set_mismatch_accepted", format!("{mname} accepted a share map with a {name}")), rep);
+                if let Ok(sig) = r {
+                    if a.pk.verifying_key().verify(a.package.message(), &sig).is_err() {
+                        return Exec::Violation(Violation::new("C04", "C04.invalid_signature_released", format!("{mname} given a share map with a {name} returned Ok with a signature that does NOT verify")), rep);
+                    }
+                    rep.probe("identifier_set_mismatch_tolerated_with_valid_signature");
                 }
             }
         }
@@ -421,8 +427,20 @@ fn exec_c<C: Suite>(scen: &Scenario) -> Exec {
         let pk2 = PublicKeyPackage::<C>::new(vs, *a.pk.verifying_key(), a.pk.min_signers());
         for (mname, r) in aggregate_all::<C>(&a.package, &a.shares, &pk2) {
             rep.evaluations += 1;
-            if mname != "custom:Disabled" && r.is_ok() {
-                return Exec::Violation(Violation::new("C04", "C04.identifier_set_mismatch_accepted", format!("{mname} accepted a public key package lacking a signer's verifying share")), rep);
+            if let Ok(sig) = r {
+                if pk2.verifying_key().verify(a.package.message(), &sig).is_err() {
+                    return Exec::Violation(Violation::new("C04", "C04.invalid_signature_released", format!("{mname} given a public key package lacking a signer's verifying share returned an invalid signature")), rep);
+                }
+            }
+        }
+        // the same with one altered share: the culprit cannot be checked without its verifying share, yet nothing invalid may come out
+        let mut bad = a.shares.clone();
+        let z0 = sigshare_scalar::<C>(&bad[&first]);
+        bad.insert(first, sigshare_from_scalar::<C>(&(z0 + one::<C>())));
+        for (mname, r) in aggregate_all::<C>(&a.package, &bad, &pk2) {
+            rep.evaluations += 1;
+            if r.is_ok() {
+                return Exec::Violation(Violation::new("C04", "C04.bad_shares_accepted", format!("{mname} accepted an altered share whose signer is missing from the public key package")), rep);
             }
         }
     }
